@@ -5,14 +5,45 @@
 mkdir -p "$B/C20"
 modfile
 GO26="${GO26:-go1.26.8}"
-(cd "$V/sim" && $GO26 test -c -modfile="$B/harness.mod" -o "$B/C20/livesim.test" ./livesim) || infra "go1.26.8 build of livesim failed"
+# seam at the handler's capture of the dump: runtime.Stack -> verifStack (hook), applied with -overlay
+mkdir -p "$B/C20/ov"
+sed 's/runtime\.Stack(/verifStack(/g' "$REPO/stack/webstack/webstack.go" > "$B/C20/ov/webstack.go"
+grep -q 'verifStack(' "$B/C20/ov/webstack.go" || infra "no runtime.Stack call found in webstack.go (seam cannot be placed)"
+cat > "$B/C20/ov/verif_stackhook.go" <<EOF
+// Present only in simulation builds (go build -overlay); never in /repo.
+package webstack
+
+import "runtime"
+
+// VerifStackHook, when set, runs right before the handler captures the dump.
+var VerifStackHook func()
+
+func verifStack(buf []byte, all bool) int {
+	if h := VerifStackHook; h != nil {
+		h()
+	}
+	return runtime.Stack(buf, all)
+}
+
+var _ = runtime.Version
+EOF
+cat >> "$B/C20/ov/webstack.go" <<EOF
+
+var _ = runtime.Version
+EOF
+cat > "$B/C20/ov/overlay.json" <<EOF
+{"Replace": {"$REPO/stack/webstack/webstack.go": "$B/C20/ov/webstack.go", "$REPO/stack/webstack/verif_stackhook.go": "$B/C20/ov/verif_stackhook.go"}}
+EOF
+OV="-overlay $B/C20/ov/overlay.json"
+(cd "$V/sim" && $GO26 test -c -vet=off $OV -modfile="$B/harness.mod" -o "$B/C20/livesim.test" ./livesim) || infra "go1.26.8 build of livesim failed"
 case "${1:-quick}" in
   replay)
     LIVESIM_MODE=replay LIVESIM_CASE="$2" "$B/C20/livesim.test" -test.run='^TestReplay$' -test.v | grep -v -e '^=== ' -e '^--- ' -e '^PASS' -e '^FAIL' -e '^ok'
     exit "${PIPESTATUS[0]}" ;;
   quick|thorough)
-    (cd "$V/sim" && CGO_ENABLED=1 $GO26 test -c -race -modfile="$B/harness.mod" -o "$B/C20/livesim-race-go1.26.test" ./livesim) || infra "go1.26.8 -race build of livesim failed"
-    (cd "$V/sim" && CGO_ENABLED=1 go test -c -race -modfile="$B/harness.mod" -o "$B/C20/livesim-race-go1.23.test" ./livesim) || infra "go1.23 -race build of livesim failed"
+    (cd "$V/sim" && CGO_ENABLED=1 $GO26 test -c -vet=off $OV -race -modfile="$B/harness.mod" -o "$B/C20/livesim-race-go1.26.test" ./livesim) || infra "go1.26.8 -race build of livesim failed"
+    (cd "$V/sim" && CGO_ENABLED=1 go test -c -vet=off $OV -race -modfile="$B/harness.mod" -o "$B/C20/livesim-race-go1.23.test" ./livesim) || infra "go1.23 -race build of livesim failed"
+    [ -n "${VERIF_BUILD_ONLY:-}" ] && exit 0
     export LIVESIM_RACE_BINS="$B/C20/livesim-race-go1.26.test:$B/C20/livesim-race-go1.23.test"
     export VERIF_TIER="$1"
     [ "$1" = quick ] && export VERIF_RUNS="${VERIF_RUNS:-400}"
